@@ -258,7 +258,7 @@ def simplify_role(r):
 
 
 def compose(kind, r):
-    if kind[0] == 'same':
+    if kind[0] == 'same' or r == 'global':
         return r
     if kind[0] == 'queue':
         res = kind[1] if r == '$queue' else r
@@ -355,6 +355,8 @@ class LockOrder:
                 role = '_delayQueue'
             kind = norm_role(self.fb, f, b) if b != 'this' else ('same',)
             role = compose(kind, role)
+            if b == 'global':
+                role = 'global'       # a static / namespace-scope mutex is one object for every session
             out.append((n, (name, role), 'lock'))
         for n in f.walk():
             q = n.get('callee', {}).get('q')
@@ -427,7 +429,7 @@ class LockOrder:
                     if role == '$queue' and f.rec in ('uscxml::BasicDelayedEventQueue',):
                         role = '_delayQueue'
                     kind = norm_role(self.fb, f, b) if b != 'this' else ('same',)
-                    hs.add((name, compose(kind, role)))
+                    hs.add((name, 'global' if b == 'global' else compose(kind, role)))
                 return hs
             for n, x, kind in self.direct[m]:
                 for h in held_at(n):
